@@ -95,6 +95,19 @@ class SFTPFile(BufferedFile):
         if self.pipelined:
             self.sftp._finish_responses(self)
         BufferedFile.close(self)
+        write_error = None
+        if self.pipelined and not async_:
+            # the statuses of pipelined writes have not been looked at yet:
+            # a write the server rejected must not go unnoticed
+            while len(self._reqs):
+                req = self._reqs.popleft()
+                try:
+                    t, msg = self.sftp._read_response(req)
+                    if t != CMD_STATUS:
+                        raise SFTPError("Expected status")
+                except (IOError, SFTPError) as e:
+                    if write_error is None:
+                        write_error = e
         try:
             if async_:
                 # GC'd file handle could be called from an arbitrary thread
@@ -108,6 +121,8 @@ class SFTPFile(BufferedFile):
         except (IOError, socket.error):
             # may have outlived the Transport connection
             pass
+        if write_error is not None:
+            raise write_error
 
     def _data_in_prefetch_requests(self, offset, size):
         k = [
